@@ -117,6 +117,13 @@ func putWithContext(ic *interop.Context, stc *Context, key []byte, value []byte)
 	if stc.ReadOnly {
 		return errors.New("storage.Context is read only")
 	}
+	if value == nil {
+		// An empty value is still a value to be stored, while nil means
+		// deletion for the DAO. Byte strings made from Go nil slices (like
+		// the result of a failed oracle response that wasn't decoded from
+		// its serialized form) must not behave differently from empty ones.
+		value = []byte{}
+	}
 	si := ic.DAO.GetStorageItem(stc.ID, key)
 	sizeInc := len(value)
 	if si == nil {
